@@ -1041,3 +1041,7 @@ impl_js_string_slice_index!(
     std::ops::RangeFrom<usize>,
     std::ops::RangeFull,
 );
+
+#[cfg(kani)]
+#[path = "/verif/kani/string_in/lib_ws.rs"]
+mod verif_kani;
